@@ -5,6 +5,19 @@ import json, os, re, shutil, time
 from concurrent.futures import ThreadPoolExecutor
 from vlib import *
 
+def cap_violations(violations, per_tag=25):
+    """Keep at most `per_tag` violations per property tag (so one noisy clause cannot crowd out another property)."""
+    count, out = {}, []
+    for v in violations:
+        keep = False
+        for t in v["tags"]:
+            if count.get(t, 0) < per_tag:
+                keep = True
+            count[t] = count.get(t, 0) + 1
+        if keep:
+            out.append(v)
+    return out
+
 def _trace_dir():
     d = os.path.join(BUILD, "traces")
     os.makedirs(d, exist_ok=True)
@@ -241,7 +254,7 @@ def borrow(tier, seed):
         os.makedirs(os.path.dirname(cfg), exist_ok=True)
         with open(cfg, "w") as f:
             f.write("SPECIFICATION Spec\nCONSTANTS\n  MaxEnters = %d\n  MaxDepth = %d\n  ArchCols <- DefArchCols\n"
-                    "  Empty <- %s\n  Ents <- TwoEnts\nINVARIANTS CellsMatchStack NoAliasing FreeAtRest Export\nCHECK_DEADLOCK FALSE\n"
+                    "  Empty <- %s\n  Ents <- TwoEnts\n  ZstCols <- DefZst\nINVARIANTS CellsMatchStack NoAliasing FreeAtRest Export\nCHECK_DEADLOCK FALSE\n"
                     % (depth, depth, cfgname))
         rc, out, dt = run_tlc("BorrowMC", cfg=cfg, workers=4 if tier == "quick" else 8, timeout=3000)
         if "No error has been found" not in out:
@@ -297,7 +310,7 @@ def borrow(tier, seed):
     res = {"engine": "borrow", "cfg": "dbg", "tier": tier, "traces": total["scripts"], "depth": depth,
            "scripts": total["scripts"], "scripts_with_refusal": total["panic_expected"], "scripts_multi_access": total["nested"],
            "tlc_states": total["states"], "tlc_transitions": total["trans"],
-           "violations": violations[:50], "n_violations": len(violations), "samples": samples,
+           "violations": cap_violations(violations), "n_violations": len(violations), "samples": samples,
            "wall_s": round(time.time() - t0, 1), "cached": False, "exhaustive": True}
     cache_put("borrow", key, res)
     return res
@@ -385,7 +398,7 @@ def handles(tier, seed):
     res = {"engine": "handles", "tier": tier, "seed": seed, "classes": len(classes), "values": len(rows), "checked": checked,
            "conversions_per_value": 30, "direct_archetypes": 4, "traces": len(rows),
            "tlc_states": st.get("distinct", 0), "tlc_transitions": st.get("generated", 0), "laws_universe": 8 * 8 * 4,
-           "violations": violations[:60], "n_violations": len(violations),
+           "violations": cap_violations(violations), "n_violations": len(violations),
            "samples": [{"class": classes[i], "value": list(rows[i][:4])} for i in (0, 57, 211) if i < len(classes)],
            "wall_s": round(time.time() - t0, 1), "cached": False}
     cache_put("handles", key, res)
@@ -594,13 +607,17 @@ def monitor(tier, seed):
         return c
     t0 = time.time()
     binp = build_harness((), False)
-    runs = [("no-faults, leak check", ["--no-faults"], ["--leak-check=full", "--errors-for-leak-kinds=definite,indirect"], 6 if tier == "quick" else 60),
-            ("fault injection, access check", [], ["--leak-check=no"], 6 if tier == "quick" else 60)]
+    binr = build_harness((), True)
+    # (name, harness args, valgrind args, runs, binary). The release build matters: debug assertions
+    # stop out-of-bounds positions before the unchecked access they guard.
+    runs = [("debug, no faults, leak check", ["--no-faults"], ["--leak-check=full", "--errors-for-leak-kinds=definite,indirect"], 6 if tier == "quick" else 60, binp),
+            ("debug, fault injection, access check", [], ["--leak-check=no"], 6 if tier == "quick" else 60, binp),
+            ("release, fault injection, access check", [], ["--leak-check=no"], 16 if tier == "quick" else 120, binr)]
     violations, parts = [], []
     def one(i):
-        name, hargs, vargs, nruns = runs[i]
+        name, hargs, vargs, nruns, binx = runs[i]
         trace = os.path.join(_trace_dir(), "mon-%s-%d.ndjson" % (key[:8], i))
-        cmd = ["valgrind", "-q", "--error-exitcode=9"] + vargs + [binp, "drive", "--seed", str(seed * 77 + i), "--runs", str(nruns), "--steps", "45", "--out", trace] + hargs
+        cmd = ["valgrind", "-q", "--error-exitcode=9"] + vargs + [binx, "drive", "--seed", str(seed * 77 + i), "--runs", str(nruns), "--steps", "45", "--out", trace] + hargs
         rc, out, dt = sh(cmd, timeout=3000, check=False)
         n = 0
         if os.path.exists(trace):
@@ -609,7 +626,7 @@ def monitor(tier, seed):
         if os.path.exists(trace + ".cur"):
             os.remove(trace + ".cur")
         return {"name": name, "rc": rc, "events": n, "wall_s": round(dt, 1), "tail": out[-1500:] if rc != 0 else ""}
-    with ThreadPoolExecutor(max_workers=2) as ex:
+    with ThreadPoolExecutor(max_workers=3) as ex:
         parts = list(ex.map(one, range(len(runs))))
     for p in parts:
         if p["rc"] != 0:
